@@ -174,6 +174,7 @@ class _Tap:
         self.orig = mem.write_byte
         self.log: List[tuple] = []
         self.keyi: List[int] = []
+        self.trise: List[list] = []          # [cycle_count, timer status bits that rose] for each ISR write
         mem.write_byte = self._write
 
     def _write(self, address, value, *args, **kwargs):
@@ -187,6 +188,13 @@ class _Tap:
                     self.keyi.append(len(emu.keyboard._matrix.fifo_snapshot()))
                 except Exception:
                     self.keyi.append(-1)
+        if a == 0x1000FC and (value & 3):
+            raw = self.mem.external_memory
+            rose = value & 3 & ~raw[len(raw) - 256 + 0xFC]
+            if rose:
+                emu = getattr(self.mem, "_emulator", None)
+                self.trise.append([int(getattr(emu, "cycle_count", -1)), rose,
+                                   1 if getattr(getattr(emu, "memory", None), "_cpu_write_active", False) else 0])
         if a == 0x1000FB:
             # IMR write: remember the ISR and IMR values at that instant
             raw = self.mem.external_memory
@@ -376,6 +384,7 @@ def run_py_machine(scn: Dict[str, Any]) -> Dict[str, Any]:
             break
         tap.log.clear()
         tap.keyi.clear()
+        tap.trise.clear()
         pre_s = cur[O_S] & 0xFFFFF
         try:
             emu.step()
@@ -395,6 +404,9 @@ def run_py_machine(scn: Dict[str, Any]) -> Dict[str, Any]:
         if tap.keyi:
             extra = dict(extra or {})
             extra["keyi_fifo"] = list(tap.keyi)
+        if tap.trise:
+            extra = dict(extra or {})
+            extra["timer_rise"] = [list(x) for x in tap.trise]
         o.append(extra)
         obs.append(o)
     hist = {"obs": obs, "err": err, "evout": evout, "preobs": preobs}
